@@ -4,6 +4,18 @@ SHAPE_NOTE = ("Container shapes in the typing context are fixed and small while 
               "(floats as reals); pyvc itself is trusted (cross-checked against CPython on solver-generated inputs each run).")
 
 META = {
+    "C04": {
+        "text": "Proved: Debump.set_dihedral_angle writes coordinates only of the atoms ranked beyond the pivot, each keeps "
+                "its distance to both axis atoms and to the other moved atoms (through qchichange's contract), backbone and "
+                "axis atoms keep their coordinates, every move is bracketed by remove_cell/add_cell; debump_residue (both "
+                "loops cut at invariants) stores no coordinate, torsion or cell itself; under --assign-only / --clean / "
+                "--nodebump / --noopt the driver reaches none of the functions that move atoms (call trace). X: 210 "
+                "(residue x position x template dihedral) cells: the moved set never contains a backbone or terminal-cap "
+                "atom and cuts no bond off the axis (known finding D13 for the CG2 hydrogens of ILE / THR).",
+        "note": "A genuine defect found by the X table was repaired (OXT/H2/H3/HO rotated with chi1). Flip machinery "
+                "(hydrogens/structures.py) and rotate_tetrahedral call sites are not yet under contract; five-atom residue "
+                "shape in the contracts. " + SHAPE_NOTE,
+    },
     "C12": {
         "text": "Failure side proved on the real main_driver / non_trivial (callees mocked in a ghost call trace, each "
                 "allowed to raise): the three output writers are reached exactly once each, only after check_files, "
